@@ -154,6 +154,28 @@ Definition assemble {A} (m : list (Z * list A)) : res (list A) :=
             (zrange 0 (zlen m)) (Ok []).
 
 (* ------------------------------------------------------------------ *)
+(* Analysis.generate_signal_events and the CALLER's sig_kwargs dictionary:
+   the entry 'mean' of the dictionary (None = absent) before and after a call
+   with mean_n_sig, and the mean the signal generator is called with.  The
+   code overwrites the entry (one `update(mean=mean_n_sig)`, no other writer,
+   before the generator is called); a tree in which that is not so is read as
+   "an entry already present wins". *)
+Definition sig_kwargs_after (kw : option Z) (mean_n_sig : Z) : option Z :=
+  if ana_sig_none mean_n_sig then kw
+  else if (sigkw_nupdate =? 1) && (sigkw_nother =? 0) && sigkw_order
+       then Some (sigkw_mean mean_n_sig)
+       else match kw with Some m => Some m | None => Some mean_n_sig end.
+(* the mean handed to the signal generator; None = no signal generation at all *)
+Definition sig_mean_used (kw : option Z) (mean_n_sig : Z) : option Z :=
+  if ana_sig_none mean_n_sig then None else sig_kwargs_after kw mean_n_sig.
+(* a sequence of generations with the same dictionary *)
+Fixpoint sig_means_used (kw : option Z) (means : list Z) : list (option Z) :=
+  match means with
+  | [] => []
+  | m :: rest => sig_mean_used kw m :: sig_means_used (sig_kwargs_after kw m) rest
+  end.
+
+(* ------------------------------------------------------------------ *)
 (* the generator as an abstract deterministic machine                   *)
 
 Inductive req : Type :=
